@@ -71,3 +71,119 @@ Example C16_nonvacuous :
               Del 5; Del 1; Del 9; Ins 10; Ins 11; Del 4] in
   inv_b (run ops E) = true /\ inorder (run ops E) = [2; 3; 6; 7; 8; 10; 11].
 Proof. vm_compute. split; reflexivity. Qed.
+
+(* ================================================================== *)
+(* Pointer level: the left/right/parent/height fields of struct        *)
+(* iv_avl_node as read and written by iv_avl.c (Avl/AvlPtrModel.v).    *)
+(* RepF f s root t: store s / root pointer represent the functional    *)
+(* tree t, f = key -> node id; includes parent-pointer consistency and *)
+(* absence of sharing (NoDup of the node ids).                         *)
+(* ================================================================== *)
+From Ivv Require Import Avl.AvlPtrModel Avl.AvlPtrRep Avl.AvlPtrInsert Avl.AvlPtrTrav Avl.AvlPtrTop Avl.AvlPtrC16 Avl.AvlPtrHist.
+
+(* iv_avl_tree_insert on a represented tree: no NULL/dangling dereference, no
+   fuel exhaustion once fuel > depth (= height, C16_ptr_fuel), and the new store
+   represents exactly the functional result; a duplicate key returns -1 and
+   writes nothing; nodes outside the tree (other than the inserted one) keep
+   all their fields. *)
+Theorem C16_ptr_refines_functional_insert :
+  forall f s root t a n fuel,
+    RepF f s root t -> C16_Inv t -> PM.find a s = Some n -> (depth t < fuel)%nat ->
+    (~ In (n_key n) (inorder t) ->
+       exists t' s' root' f',
+         AvlModel.insert (n_key n) t = Some t'
+         /\ iv_avl_tree_insert fuel (mkState s root) (Some a) = Ok (mkState s' root', 0)
+         /\ RepF f' s' root' t'
+         /\ C16_Inv t' /\ inorder t' = ins_sorted (n_key n) (inorder t)
+         /\ f' (n_key n) = a /\ (forall k, In k (inorder t) -> f' k = f k)
+         /\ frame_except (a :: map f (inorder t)) s s')
+    /\ (In (n_key n) (inorder t) ->
+          AvlModel.insert (n_key n) t = None
+          /\ iv_avl_tree_insert fuel (mkState s root) (Some a) = Ok (mkState s root, -1)).
+Proof. exact ptr_insert_C16. Qed.
+Print Assumptions C16_ptr_refines_functional_insert.
+
+(* iv_avl_tree_delete of the node carrying key k (leaf, or victim swap from the
+   taller side followed by rebalance_path): same guarantees; the deleted
+   object is no longer a node of the tree. *)
+Theorem C16_ptr_refines_functional_delete :
+  forall f s root t k fuel,
+    RepF f s root t -> C16_Inv t -> In k (inorder t) -> (depth t <= fuel)%nat ->
+    exists t' s' root',
+      AvlModel.delete k t = Some t'
+      /\ iv_avl_tree_delete fuel (mkState s root) (Some (f k)) = Ok (mkState s' root')
+      /\ RepF f s' root' t'
+      /\ C16_Inv t' /\ inorder t' = remove Z.eq_dec k (inorder t)
+      /\ ~ In (f k) (map f (inorder t'))
+      /\ frame_except (map f (inorder t)) s s'.
+Proof. exact ptr_delete_C16. Qed.
+Print Assumptions C16_ptr_refines_functional_delete.
+
+(* What RepF says about the raw pointers: the node ids are pairwise distinct;
+   the root's parent is NULL; every child's parent field points back to its
+   parent; every non-root node is the left or right child of its parent. *)
+Theorem C16_ptr_parent_pointers :
+  forall f s root t, RepF f s root t -> parent_ok s root (map f (inorder t)).
+Proof. exact ptr_parent_C16. Qed.
+Print Assumptions C16_ptr_parent_pointers.
+
+(* iv_avl_tree_for_each (next from min) visits the nodes in key order and stops
+   after size t iterations; prev from max is the reverse; min / max / next /
+   prev are the extremes and the in-order successor / predecessor. *)
+Theorem C16_ptr_traversal :
+  forall f s root t fuel,
+    RepF f s root t -> (depth t <= fuel)%nat ->
+    forward_ptr (size t) fuel (mkState s root) = Ok (map f (inorder t))
+    /\ backward_ptr (size t) fuel (mkState s root) = Ok (map f (rev (inorder t)))
+    /\ keys_of s (map f (inorder t)) = inorder t
+    /\ iv_avl_tree_min fuel (mkState s root) = Ok (hd_ptr f (inorder t))
+    /\ iv_avl_tree_max fuel (mkState s root) = Ok (hd_ptr f (rev (inorder t)))
+    /\ (forall a k b, inorder t = a ++ k :: b ->
+          iv_avl_tree_next fuel (mkState s root) (Some (f k)) = Ok (hd_ptr f b)
+          /\ iv_avl_tree_prev fuel (mkState s root) (Some (f k)) = Ok (hd_ptr f (rev a))).
+Proof. exact ptr_traversal_C16. Qed.
+Print Assumptions C16_ptr_traversal.
+
+(* the loop bound is the height of the tree (logarithmic by C16_height_log) *)
+Theorem C16_ptr_fuel :
+  forall t, avl t -> Z.of_nat (depth t) = ht t.
+Proof. exact ptr_fuel_is_height. Qed.
+Print Assumptions C16_ptr_fuel.
+
+(* Whole histories as the C driver executes them (malloc of a node with garbage
+   fields g/gh for every insert, free after a rejected insert, BST lookup +
+   delete + free): from the empty tree the pointer-level run never reports a
+   NULL / dangling dereference or exhausted loop bound (fuel > number of
+   operations suffices) and ends in a store representing run ops E, so
+   C16_history and all statements above hold of the pointer structure. *)
+Theorem C16_ptr_history :
+  forall ops fuel g gh, (length ops < fuel)%nat ->
+    exists m f,
+      prun fuel g gh (map to_pop ops) empty_machine = Ok m
+      /\ RepF f (st_store (m_state m)) (st_root (m_state m)) (run ops E)
+      /\ C16_Inv (run ops E).
+Proof. exact ptr_history. Qed.
+Print Assumptions C16_ptr_history.
+
+(* Non-vacuity at the pointer level: a history with both double rotations
+   (i20: right-left, i7 and i9: left-right), both single rotations, a duplicate,
+   a leaf delete, a delete of the root whose victim is the minimum of the right
+   subtree two levels down (d7), a delete whose victim is the maximum of the
+   left subtree (d8) and an absent key.  After every operation the store
+   satisfies RepF of the functional model's tree, the return codes agree and
+   iv_avl_tree_for_each enumerates the nodes in order. *)
+Example C16_ptr_nonvacuous :
+  let ops := [Ins 10; Ins 30; Ins 20; Ins 5; Ins 7; Ins 40; Ins 50; Ins 3; Ins 1; Ins 8; Ins 9;
+              Ins 6; Ins 20; Del 10; Del 7; Del 50; Del 40; Del 8; Del 99] in
+  check_hist 8 ops empty_machine E = true
+  /\ (exists m, prun 8 (Some 1%positive) 170 (map to_pop ops) empty_machine = Ok m
+        /\ RepF (fof (st_store (m_state m))) (st_store (m_state m)) (st_root (m_state m)) (run ops E)
+        /\ inorder (run ops E) = [1; 3; 5; 6; 9; 20; 30]).
+Proof.
+  cbv zeta. split; [vm_compute; reflexivity|].
+  destruct (hist_ok_spec 8
+    [Ins 10; Ins 30; Ins 20; Ins 5; Ins 7; Ins 40; Ins 50; Ins 3; Ins 1; Ins 8; Ins 9;
+     Ins 6; Ins 20; Del 10; Del 7; Del 50; Del 40; Del 8; Del 99]) as (m & A & B);
+    [vm_compute; reflexivity|].
+  exists m. split; [exact A|]. split; [exact B|]. vm_compute. reflexivity.
+Qed.
